@@ -140,8 +140,18 @@ def to_lib(f, v):
     if k == 'map':
         return {kk: to_lib(f['val'], vv) for kk, vv in v}
     if k == 'name':
+        if isinstance(v, TextName):
+            return list(v.given)          # text elements and a URI as the application would give them
         return [bytes(c) for c in v]
     return v
+
+
+class TextName(list):
+    """a name value (list of component wires) handed to the library in another accepted form: text elements / a URI string"""
+
+    def __init__(self, comps, given):
+        super().__init__(comps)
+        self.given = given
 
 
 def make_instance(shape, values, cls=None):
@@ -208,6 +218,10 @@ def norm_value(f, v):
     return v
 
 
+TN1 = TextName([ts.tlv(8, 'a b'.encode()), ts.tlv(8, 'c:d'.encode()), ts.tlv(8, 'é'.encode())], ['a b', 'c:d', 'é'])
+TN2 = TextName([ts.tlv(8, b'x'), ts.tlv(8, 'né e'.encode()), ts.tlv(0x20, b'k')], ['x', 'né e', ts.tlv(0x20, b'k')])
+
+
 # -- value menus ---------------------------------------------------------------------------------------
 def menu(f, level, tier):
     k = f['k']
@@ -225,7 +239,7 @@ def menu(f, level, tier):
     elif k == 'text':
         full = [None, '', 'a', 'é', '日本', 'é' * 126, 'x' * 253, 'é' * 127]
     elif k == 'name':
-        full = [None, [], [C1], [C1, C2, C3], [CL], [C1] * 126, [C1, CL, C3]]
+        full = [None, [], [C1], [C1, C2, C3], [CL], [C1] * 126, [C1, CL, C3], TN1, TN2]
     elif k == 'model':
         subs = [menu(g, 1, tier) for g in f['fields']]
         full = [None, {}] + [dict(zip([g['n'] for g in f['fields']], combo)) for combo in itertools.product(*subs)][:12]
@@ -517,6 +531,33 @@ def inheritance_cases(warm=False):
         _base = tm.IncludeBase(Base)
         a = tm.BytesField(0x91, is_string=True)      # overrides in place: stays first
     out.append(('override-in-place', Override, [{'n': 'a', 'k': 'text', 't': 0x91}, {'n': 'b', 'k': 'bytes', 't': 0x82}]))
+
+    class FrontOverride(Base):
+        c = tm.UintField(0x7F)
+        _base = tm.IncludeBase(Base)
+        b = tm.BytesField(0x92)                        # overrides an included field that is not at the position it has in Base
+    out.append(('derived-first-override', FrontOverride, [{'n': 'c', 'k': 'uint', 't': 0x7F}, {'n': 'a', 'k': 'uint', 't': 0x81}, {'n': 'b', 'k': 'bytes', 't': 0x92}]))
+
+    class MidOverride(Base):
+        c = tm.UintField(0x7D)
+        d = tm.UintField(0x7F)
+        _base = tm.IncludeBase(Base)
+        e = tm.UintField(0x85)
+        a = tm.UintField(0x93)                         # overrides the first included field, which sits at index 2 here
+    out.append(('include-in-the-middle-override', MidOverride, [{'n': 'c', 'k': 'uint', 't': 0x7D}, {'n': 'd', 'k': 'uint', 't': 0x7F},
+                                                                 {'n': 'a', 'k': 'uint', 't': 0x93}, {'n': 'b', 'k': 'bytes', 't': 0x82},
+                                                                 {'n': 'e', 'k': 'uint', 't': 0x85}]))
+
+    class P(tm.TlvModel):
+        p = tm.UintField(0x01)
+
+    class TwoBases(P, Base):
+        _p = tm.IncludeBase(P)
+        x = tm.UintField(0x03)
+        _base = tm.IncludeBase(Base)
+        b = tm.BytesField(0x95)
+    out.append(('two-includes-override', TwoBases, [{'n': 'p', 'k': 'uint', 't': 1}, {'n': 'x', 'k': 'uint', 't': 3}, {'n': 'a', 'k': 'uint', 't': 0x81},
+                                                     {'n': 'b', 'k': 'bytes', 't': 0x95}]))
 
     class NoInclude(Base):
         c = tm.UintField(0x83)                         # base fields are not included without IncludeBase
